@@ -113,10 +113,13 @@ def check_jdd(case):
         if ref[i] and not close(sum(qs[i].values()), 1):
             raise Violation("excess-sum", f"topology {i}: excess distribution sums to {sum(qs[i].values())!r}")
     # converters mutually inverse
-    d = call("list->dict", JointExcessfromJDD.convert_list_qks_to_dict, qs, names)
+    # (the names may be handed over as any iterable: a list, a tuple or a one-shot iterator)
+    feed = {0: lambda: list(names), 1: lambda: tuple(names), 2: lambda: iter(list(names)), 3: lambda: (n for n in names)}[
+        (len(keys) + T) % 4]
+    d = call("list->dict", JointExcessfromJDD.convert_list_qks_to_dict, qs, feed())
     if list(d.keys()) != list(names) or any(d[n] != q for n, q in zip(names, qs)):
-        raise Violation("convert-list-dict", f"convert_list_qks_to_dict gave {d}")
-    back = call("dict->list", JointExcessfromJDD.convert_dict_qks_to_list, d, names)
+        raise Violation("convert-list-dict", f"convert_list_qks_to_dict gave {d} for names {names}")
+    back = call("dict->list", JointExcessfromJDD.convert_dict_qks_to_list, d, feed())
     if back != qs:
         raise Violation("convert-roundtrip", "convert_dict_qks_to_list(convert_list_qks_to_dict(q)) != q")
     classes = {f"T{T}"}
